@@ -291,8 +291,43 @@ func unzipObserved(c *Case, s *hx.Sink, e *enc, zipFile, snapDir, destRel, destF
 
 // ---------------------------------------------------------------- tree cases
 
+func bucket(n int) string {
+	switch {
+	case n == 0:
+		return "0"
+	case n <= 2:
+		return "1-2"
+	case n <= 10:
+		return "3-10"
+	case n <= 30:
+		return "11-30"
+	case n <= 80:
+		return "31-80"
+	}
+	return "81-200"
+}
+
 func runTree(c *Case, s *hx.Sink, sb string) string {
 	e := newEnc()
+	s.Count("tree_files:" + bucket(len(c.Items)))
+	maxd := 0
+	for _, it := range c.Items {
+		if d := strings.Count(it.P, "/"); d > maxd {
+			maxd = d
+		}
+		n, _ := strconv.Atoi(strings.SplitN(it.C, ":", 2)[0])
+		switch {
+		case n == 0:
+			s.Count("tree_content:empty")
+		case n <= 4096:
+			s.Count("tree_content:1..4096")
+		default:
+			s.Count("tree_content:>4096")
+		}
+	}
+	s.Count(fmt.Sprintf("tree_depth:%d", maxd))
+	s.Count("tree_srcform:" + c.SrcForm)
+	s.Count("destform:" + c.DestForm)
 	srcAbs := filepath.Join(sb, c.Src)
 	must(os.MkdirAll(srcAbs, 0o755))
 	var fl []string
@@ -387,8 +422,41 @@ func writeArchive(path string, items []Item) {
 	must(f.Close())
 }
 
+func nameClass(n string) string {
+	segs := strings.Split(n, "/")
+	switch {
+	case n == "":
+		return "empty"
+	case strings.HasSuffix(n, "/"):
+		return "ends-in-slash"
+	case strings.HasPrefix(n, "/"):
+		return "absolute"
+	}
+	for _, sg := range segs {
+		if sg == ".." {
+			return "has-dotdot"
+		}
+	}
+	for _, sg := range segs {
+		if sg == "." || sg == "" {
+			return "has-dot-or-empty"
+		}
+	}
+	if strings.Contains(n, "\\") {
+		return "backslash"
+	}
+	return "plain"
+}
+
 func runHostile(c *Case, s *hx.Sink, sb string) string {
 	e := newEnc()
+	s.Count("destform:" + c.DestForm)
+	for _, it := range c.Items {
+		s.Count("entry_name:" + nameClass(it.P))
+		if it.D {
+			s.Count("entry_dirattr")
+		}
+	}
 	snapDir := filepath.Join(sb, "h")
 	must(os.MkdirAll(snapDir, 0o755))
 	for _, it := range c.Before {
@@ -403,7 +471,12 @@ func runHostile(c *Case, s *hx.Sink, sb string) string {
 		must(os.WriteFile(p, b, 0o644))
 	}
 	var es []string
-	for _, it := range c.Items {
+	items := make([]Item, len(c.Items))
+	for i, it := range c.Items {
+		it.P = strings.ReplaceAll(it.P, "${ROOT}", snapDir)
+		items[i] = it
+	}
+	for _, it := range items {
 		id := uint64(0)
 		if !strings.HasSuffix(it.P, "/") {
 			id = e.know(content(it.C))
@@ -411,7 +484,7 @@ func runHostile(c *Case, s *hx.Sink, sb string) string {
 		es = append(es, fmt.Sprintf("(%s,%s,%s)", e.str(it.P), hx.Bool(it.D), hx.N(id)))
 	}
 	zipFile := filepath.Join(sb, "hostile.zip")
-	writeArchive(zipFile, c.Items)
+	writeArchive(zipFile, items)
 	u := unzipObserved(c, s, e, zipFile, snapDir, c.Dest, c.DestForm)
 	return fmt.Sprintf("mkCase %s %s (BHostile %s (%s))", hx.N(c.ID), e.table(), hx.List(es), u)
 }
@@ -437,7 +510,12 @@ func runLex(c *Case, s *hx.Sink) string {
 		} else {
 			s.Count("lex_rel:error")
 		}
-		obs = append(obs, fmt.Sprintf("mkL %s %s %s %s %s", e.str(a), e.str(b), e.str(cl), e.str(jn), r))
+		dir, _ := filepath.Split(a)
+		edn := a // files.ensureDirName is not exported: what it is documented to do
+		if strings.HasSuffix(a, "/") {
+			edn = a[:len(a)-1]
+		}
+		obs = append(obs, fmt.Sprintf("mkL %s %s %s %s %s %s %s", e.str(a), e.str(b), e.str(cl), e.str(jn), r, e.str(dir), e.str(edn)))
 	}
 	return fmt.Sprintf("mkCase %s %s (BLex %s)", hx.N(c.ID), e.table(), hx.List(obs))
 }
@@ -502,33 +580,35 @@ func main() {
 		os.RemoveAll(filepath.Join(fl.Out, "sb"))
 		return
 	}
-	nTree, nHostile, nLex, bigEvery := 110, 80, 40, 40
+	nTree, nHostile, nLex, bigEvery := 300, 160, 40, 75
 	if fl.Tier == "thorough" {
-		nTree, nHostile, nLex, bigEvery = 420, 1500, 400, 25
+		nTree, nHostile, nLex, bigEvery = 1500, 4000, 300, 25
 	}
 	id := uint64(0)
-	total := nTree + nHostile + nLex
-	ti, hi, li := 0, 0, 0
-	for i := 0; i < total; i++ {
+	want := [3]int{nTree, nHostile, nLex}
+	var done [3]int
+	for {
 		// interleave the three streams proportionally (keeps the Coq shards balanced)
-		var c *Case
-		switch {
-		case ti*total <= i*nTree && ti < nTree:
-			c = genTree(prng.New(fl.Seed, "C20tree", uint64(ti)), ti%bigEvery == bigEvery-1)
-			ti++
-		case hi*total <= i*nHostile && hi < nHostile:
-			c = genHostile(prng.New(fl.Seed, "C20hostile", uint64(hi)), hi)
-			hi++
-		case li < nLex:
-			c = genLex(prng.New(fl.Seed, "C20lex", uint64(li)))
-			li++
-		case ti < nTree:
-			c = genTree(prng.New(fl.Seed, "C20tree", uint64(ti)), false)
-			ti++
-		default:
-			c = genHostile(prng.New(fl.Seed, "C20hostile", uint64(hi)), hi)
-			hi++
+		k := -1
+		for j := 0; j < 3; j++ {
+			if done[j] < want[j] && (k < 0 || done[j]*want[k] < done[k]*want[j]) {
+				k = j
+			}
 		}
+		if k < 0 {
+			break
+		}
+		var c *Case
+		i := uint64(done[k])
+		switch k {
+		case 0:
+			c = genTree(prng.New(fl.Seed, "C20tree", i), done[k]%bigEvery == bigEvery-1)
+		case 1:
+			c = genHostile(prng.New(fl.Seed, "C20hostile", i))
+		default:
+			c = genLex(prng.New(fl.Seed, "C20lex", i))
+		}
+		done[k]++
 		id++
 		c.ID = id
 		run(c)
